@@ -663,7 +663,7 @@ static void twoLevelCases(vh::Rng& rng, bool thorough) {
     int v = 0;
     VL flat;
     for (int k : sh) { std::vector<int> in; for (int i = 0; i < k; ++i) { in.push_back(++v); flat.push_back(v); } nested.push_back(in); }
-    VL fwdA, bwdA, fwdB, bwdB, dists;
+    VL fwdA, bwdA, fwdB, bwdB, dists, jv, jd;
     {
       auto p = galois::make_two_level_iterator<std::bidirectional_iterator_tag>(nested.begin(), nested.end());
       for (auto it = p.first; it != p.second; ++it) fwdA.push_back(*it);
@@ -671,6 +671,18 @@ static void twoLevelCases(vh::Rng& rng, bool thorough) {
       auto q = galois::make_two_level_iterator<std::random_access_iterator_tag>(nested.begin(), nested.end());
       dists.push_back(std::distance(q.first, q.second));
       if (!flat.empty()) { auto it = q.first; std::advance(it, (long)flat.size() / 2); dists.push_back(*it); } else dists.push_back(0);
+      // random-access jumps between every pair of positions (forwards and backwards, from and to the end); a jump that
+      // does not land where single steps lead is logged as -1 and never dereferenced
+      long t = (long)flat.size();
+      std::vector<decltype(q.first)> refs;
+      { auto it = q.first; for (long i = 0; i <= t; ++i) { refs.push_back(it); if (i < t) ++it; } }
+      for (long i = 0; i <= t; ++i)
+        for (long j = 0; j <= t; ++j) {
+          auto it = refs[i];
+          it += (j - i);
+          jv.push_back(it == refs[j] ? (j == t ? 0 : *it) : -1);
+          jd.push_back(refs[j] - refs[i]);
+        }
     }
     {
       auto p = galois::stl_two_level_begin(nested.begin(), nested.end());
@@ -680,7 +692,7 @@ static void twoLevelCases(vh::Rng& rng, bool thorough) {
     }
     std::string body = "\"op\":\"twolevel\",\"a\":0,\"b\":0,\"res\":" + vh::jarr(dists) + "," + obsList("shape", sh) + "," +
                        obsList("fwd", fwdA) + "," + obsList("bwd", bwdA) + "," + obsList("fwd2", fwdB) + "," +
-                       obsList("bwd2", bwdB) + ",\"live\":0,\"bad\":0,\"c\":\"TwoLevelIterator\",\"adt\":\"twolevel\"";
+                       obsList("bwd2", bwdB) + "," + obsList("jv", jv) + "," + obsList("jd", jd) + ",\"live\":0,\"bad\":0,\"c\":\"TwoLevelIterator\",\"adt\":\"twolevel\"";
     addNode(1, body);
   }
 }
